@@ -66,6 +66,19 @@ func verifDescribe(c *hcl.BodyContent) string {
 
 func TestVerifReplayBodyContent(t *testing.T) {
 	n := 0
+	// JustAttributes on the remainder: blocks consumed by the partial step are gone
+	for _, src := range []string{"a = 1\nb {\n}\n", "a = 1\nb {\n}\nc \"l\" {\n}\nd = 2\n"} {
+		f, diags := ParseConfig([]byte(src), "t.hcl", hcl.InitialPos)
+		if diags.HasErrors() {
+			continue
+		}
+		n++
+		_, remain, d1 := f.Body.PartialContent(&hcl.BodySchema{Blocks: []hcl.BlockHeaderSchema{{Type: "b"}, {Type: "c", LabelNames: []string{"x"}}}})
+		attrs, d2 := remain.JustAttributes()
+		if d1.HasErrors() || d2.HasErrors() {
+			t.Errorf("REPLAY-FAIL func=hclsyntax.(*Body).JustAttributes body=%q: after PartialContent consumed every block, JustAttributes on the remainder returns %d attributes and reports: %s", src, len(attrs), d2.Error())
+		}
+	}
 	for _, src := range verifBodySources {
 		f, diags := ParseConfig([]byte(src), "t.hcl", hcl.InitialPos)
 		if diags.HasErrors() {
